@@ -72,6 +72,11 @@ func PredictResponse(handler string, script []string, id int, isHTTP bool, rname
 			return
 		}
 		replied = true
+		if kind == "reserrnomsg" {
+			ex.Payload = errJSON("test.nomsg", "", "", meta())
+			ex.Code = "test.nomsg"
+			return
+		}
 		if kind == "reserr" {
 			ex.Payload = errJSON("test.custom", "Custom "+sid, "", meta())
 			ex.Code = "test.custom"
@@ -142,6 +147,8 @@ func PredictResponse(handler string, script []string, id int, isHTTP bool, rname
 			switch arg {
 			case "reserr":
 				panicked("reserr", "")
+			case "reserrnomsg":
+				panicked("reserrnomsg", "")
 			case "err":
 				panicked("err", "plain error "+sid)
 			case "wraperr":
@@ -186,6 +193,9 @@ func PredictResponse(handler string, script []string, id int, isHTTP bool, rname
 			case "err":
 				ex.Code = "test.err"
 				ex.Payload = errJSON(ex.Code, "Err "+sid+TrickyFor(id), `{"x":1}`, m)
+			case "errnomsg":
+				ex.Code = "test.nomsg"
+				ex.Payload = errJSON(ex.Code, "", "", m)
 			case "plainerr":
 				ex.Code = "system.internalError"
 				ex.Payload = errJSON(ex.Code, "Internal error: plain "+sid, "", m)
